@@ -1,10 +1,109 @@
-(* C02 - NBT typed round trip: property theorems only.  Model: Model/C02.v; proofs: Proofs/C02*.v *)
+(* C02 - NBT typed round trip Unmarshal(Marshal(v)) == v; carriers byte-exact: property theorems only.
+   Model: Model/C02.v (over Model/C01.v); proofs: Proofs/C02_dec.v, C02.v, C02_struct.v, C02_all.v *)
 From Coq Require Import List NArith ZArith.
-From GoMC Require Import Base.Bytes Base.Dec Gen.Consts Model.C01 Model.C02.
+From GoMC Require Import Base.Bytes Base.Dec Gen.Consts Model.C01 Model.C02 Proofs.C01 Proofs.C01_dec Proofs.C01_more
+  Proofs.C02_dec Proofs.C02 Proofs.C02_struct Proofs.C02_all.
 Import ListNotations.
 Open Scope N_scope.
 
-Theorem C02_placeholder : zero YBool = GvBool false.
-Proof. reflexivity. Qed.
+(* the reads of the typed decoder on the document of ANY well-formed tree, followed by anything: the root
+   name, the tree itself, and exactly the document consumed (so `unmarshal` is the kind switch `unm` on the
+   tree that was written) *)
+Theorem C02_parse : forall f name t rest fuel,
+  wf t -> name_ok name = true -> (length (payload t) < fuel)%nat ->
+  run_flat (Decode f (dec_tree fuel)) (doc f name t ++ rest) = FOk (root_name f name, t) rest.
+Proof. exact decode_tree_doc. Qed.
 
-Print Assumptions C02_placeholder.
+(* ROUND TRIP, tree level: for every documented type without interface-typed parts and every value of it the
+   encoder accepts, what is written is a well-formed tree of the tag getTagType selected, and the decoder's
+   kind switch on it (fresh destination) gives exactly canon t v - the property's equality as a normal form *)
+Theorem C02_roundtrip_tree : forall t v tr,
+  documented t = true -> covered t = true -> has_type t v = true -> enc t v = TOk tr ->
+  wf tr /\ tag_id tr = get_tag t v /\ unm tr t = UOk (canon t v).
+Proof. intros t v tr Hd Hc Ht He. exact (rt_all t Hd Hc v tr Ht He). Qed.
+
+(* ROUND TRIP, bytes: both formats, value or pointer handed to Marshal, every root name: if Marshal returns
+   bytes, they are the document of a well-formed tree, and Unmarshal of exactly these bytes into a fresh
+   variable of the same type succeeds, consumes everything, returns the root name (empty in network
+   format) and the value canon t v *)
+Theorem C02_roundtrip : forall f byval name t v bs,
+  documented t = true -> covered t = true -> has_type t v = true -> all_bytesb name = true ->
+  marshal f byval name t v = MOk bs ->
+  exists tr, wf tr /\ bs = doc f name tr /\ tag_id tr = get_tag t v /\
+             unmarshal f t bs = DOk (root_name f name) (canon t v) [].
+Proof.
+  intros f byval name t v bs Hd Hc Ht Hn Hm. eapply roundtrip_bytes; eauto. now apply rt_all.
+Qed.
+
+(* NO PANIC: Marshal never panics on a value of any type of the universe (interfaces included), whatever the
+   value holds - except the untyped nil handed over by value, which is no value of any type *)
+Theorem C02_no_panic : forall f byval name t v,
+  has_type t v = true -> (byval = true -> t = YIface -> v <> GvIface None) ->
+  marshal f byval name t v <> MPanic.
+Proof. exact marshal_no_panic. Qed.
+Theorem C02_no_panic_nil_refuted : exists f name, marshal f true name YIface (GvIface None) = MPanic.
+Proof. exists File, []. reflexivity. Qed.
+
+(* CARRIERS at the root, byte level, for every well-formed document followed by anything: RawMessage holds
+   (Type, Data) and Encode writes back exactly the document *)
+Theorem C02_carrier_raw : forall f name t rest fuel,
+  wf t -> name_ok name = true -> (length (payload t) < fuel)%nat ->
+  exists r, run_flat (Decode f (dec_raw fuel)) (doc f name t ++ rest) = FOk (root_name f name, r) rest /\
+            raw_reencode f name r = doc f name t.
+Proof.
+  intros f name t rest fuel W Hn Hf. exists (tag_id t, payload t). split.
+  - apply Decode_doc; auto with rb. now apply dec_raw_conforms.
+  - apply raw_exact.
+Qed.
+(* dynbt.Value: exact for every document without an empty list carrying an element id other than TAG_End *)
+Theorem C02_carrier_dyn_partial : forall f name t rest fuel,
+  wf t -> name_ok name = true -> (length (payload t) < fuel)%nat -> dyn_exact t = true ->
+  exists d, run_flat (Decode f (dec_dyn fuel)) (doc f name t ++ rest) = FOk (root_name f name, d) rest /\
+            dyn_reencode f name d = doc f name t.
+Proof.
+  intros f name t rest fuel W Hn Hf X. exists (dyn_of t). split.
+  - apply Decode_doc; auto with rb. now apply dec_dyn_conforms.
+  - now apply dyn_exact_doc.
+Qed.
+Theorem C02_carrier_dyn_refuted : exists t, wf t /\ dyn_reencode File [] (dyn_of t) <> doc File [] t.
+Proof. exists (TList 3 []). split; [reflexivity|]. vm_compute. discriminate. Qed.
+
+(* ---- non-vacuity: a concrete type with nested structs, names, omitempty, a skipped field, a nil pointer,
+   arrays, typed arrays, a map, and both carriers; encoded and decoded by the model *)
+Definition fi (n : list N) (o s : bool) : finfo := FInfo n o false s.
+Definition ex_ty : gtype :=
+  YStruct [ (fi [110] false false, YInt true 8);                         (* n  int8 *)
+            (fi [117] true false, YInt false 64);                        (* u  uint64 `omitempty` *)
+            (fi [45] false true, YStr);                                  (* skipped *)
+            (fi [112] false false, YPtr (YStruct [(fi [120] false false, YF32); (fi [121] true false, YStr)]));
+            (fi [97] false false, YArray 2 (YInt false 8));              (* [2]byte *)
+            (fi [108] false false, YSlice (YSlice (YInt true 32)));      (* [][]int32 *)
+            (fi [109] false false, YMap (YPtr YBool));
+            (fi [114] false false, YRaw); (fi [100] true false, YDyn) ].
+Definition ex_val : gv :=
+  GvStruct [ GvInt (-128); GvInt 0; GvStr [1; 2]; GvPtr None; GvList [GvInt 255; GvInt 0];
+             GvList [GvList [GvInt (-1); GvInt 2147483647]; GvList []];
+             GvMap [([98], GvPtr (Some (GvBool true))); ([97], GvPtr None)];
+             GvRaw (Some (TList 8 [TString [104; 105]])); GvDyn (Some (TList 3 [])) ].
+Example C02_ex_hyp : documented ex_ty = true /\ covered ex_ty = true /\ has_type ex_ty ex_val = true.
+Proof. repeat split; vm_compute; reflexivity. Qed.
+Example C02_ex_roundtrip : exists bs,
+  marshal File true [114] ex_ty ex_val = MOk bs /\ lenN bs = 105 /\
+  unmarshal File ex_ty bs = DOk [114] (canon ex_ty ex_val) [] /\
+  canon ex_ty ex_val =
+    GvStruct [ GvInt (-128); GvInt 0; GvStr []; GvPtr (Some (GvStruct [GvF32 0; GvStr []])); GvList [GvInt 255; GvInt 0];
+               GvList [GvList [GvInt (-1); GvInt 2147483647]; GvList []];
+               GvMap [([98], GvPtr (Some (GvBool true))); ([97], GvPtr (Some (GvBool false)))];
+               GvRaw (Some (TList 8 [TString [104; 105]])); GvDyn (Some (TList 0 [])) ].
+Proof. eexists. repeat split; vm_compute; reflexivity. Qed.
+Example C02_ex_carrier : wf ex_tree /\ dyn_exact ex_tree = false /\ dyn_exact (dyn_norm ex_tree) = true.
+Proof. repeat split; vm_compute; reflexivity. Qed.
+
+Print Assumptions C02_parse.
+Print Assumptions C02_roundtrip_tree.
+Print Assumptions C02_roundtrip.
+Print Assumptions C02_no_panic.
+Print Assumptions C02_no_panic_nil_refuted.
+Print Assumptions C02_carrier_raw.
+Print Assumptions C02_carrier_dyn_partial.
+Print Assumptions C02_carrier_dyn_refuted.
